@@ -324,8 +324,20 @@ def run_property(prop_id, tier, seed, only=None, jobs=None):
         results = [work(j) for j in joblist]
     else:
         import multiprocessing as mp
-        with mp.get_context("fork").Pool(min(nproc, len(joblist)), maxtasksperchild=1) as pool:
-            results = pool.map(work, joblist, chunksize=1)
+        # safety net only: a budget is a case count, never a time limit.  If the pool does not finish within the guard
+        # (a non-terminating loop in the code under test, a dead worker) the run is INCONCLUSIVE: exit 2, never a VIOLATION.
+        guard_s = float(os.environ.get("VERIF_TIMEOUT", "0") or 0) or (1800 if tier == "quick" else 6 * 3600)
+        pool = mp.get_context("fork").Pool(min(nproc, len(joblist)), maxtasksperchild=1)
+        try:
+            results = pool.map_async(work, joblist, chunksize=1).get(timeout=guard_s)
+            pool.close()
+        except mp.TimeoutError:
+            pool.terminate()
+            print("HARNESS-ERROR inconclusive: workers did not finish within the %d s safety guard (VERIF_TIMEOUT); "
+                  "no verdict on property %s" % (guard_s, prop_id))
+            return 2
+        finally:
+            pool.join()
     harness_errors = [r for r in results if r["error"]]
     if harness_errors:
         for r in harness_errors[:3]:
